@@ -259,6 +259,15 @@ func (bc *buildCtx) realImpl(d *D) interface{} {
 		return tSNils{}
 	case "NFunc":
 		return tNFunc(nil)
+	case "NilSliceStringer":
+		if d.N%2 == 0 {
+			return tPathStringer(nil)
+		}
+		return tPathStringer{}
+	case "NilMapErr":
+		return tMapErr(nil)
+	case "NilFuncStringer":
+		return tFuncStringer(nil)
 	case "NChan":
 		return tNChan(sharedChan)
 	case "chan":
@@ -1197,3 +1206,17 @@ type tSNils struct {
 
 type tNFunc func()
 type tNChan chan int
+
+// nil-able non-pointer types whose methods panic on the nil (or empty) value: the panic is reported like any other
+// (only a nil *pointer* receiver is rendered as <nil>)
+type tPathStringer []string
+
+func (p tPathStringer) String() string { return p[0] }
+
+type tMapErr map[string]int
+
+func (m tMapErr) Error() string { m["x"] = 1; return "unreachable for a nil map" }
+
+type tFuncStringer func() string
+
+func (f tFuncStringer) String() string { return f() }
